@@ -1397,6 +1397,16 @@ func Run(c *Case) (w *World) {
 		}
 		switch {
 		case IsFsOp(s.K):
+			if c.Recurse && s.K == KRename {
+				// renaming onto an existing entry (overwrite) is not among the
+				// histories C19 quantifies over: the step is skipped
+				var st unix.Stat_t
+				if unix.Lstat(string(s.Q), &st) == nil {
+					w.StepErrs = append(w.StepErrs, "EEXIST-skipped")
+					w.Feat["recursive-overwrite-renames-skipped"]++
+					break
+				}
+			}
 			if c.Recurse && (s.K == KMkdir || s.K == KRename || s.K == KRmdir) {
 				// recursive mode quantifies over directories created/moved one
 				// level at a time, each followed by delivery of its events
